@@ -25,7 +25,9 @@ TECHNIQUE = 'Lean 4 proofs about the lookup folds over an ordered-multimap model
 
 VALS = ['a', 'b', 'x=1', 'x=2', 'y=3 z=4', 'a b', '"q r"', 'y=', '=v', 'n=a=b', 'true', 'no', 'é', '%h', '',
         # assignments that *look* empty but are not an empty assignment (no reset): a quoted empty word, a quoted blank
-        '""', "''", '" "']
+        '""', "''", '" "',
+        # one assignment that names the same thing more than once
+        'x=1 x=2', 'z=9 y=3 z=4 y=5', 'x= x=7 x=']
 
 
 def gen_history(rnd):
@@ -188,7 +190,7 @@ def oracle(ctx):
     for _ in range(1200 if ctx.thorough else 300):
         kind = rnd.choice(['str', 'all', 'strv', 'args', 'keyval', 'bool', 'strempty'])
         pool = {'str': ['UTC', 'Europe/Rome', 'a b', ''], 'all': ['8.8.8.8', '1.1.1.1', ''], 'strv': ['CAP_A CAP_B', 'CAP_C', ''],
-                'args': ['--x "a b"', '-v', ''], 'keyval': ['A=1 B=2', 'A=3', 'C=', ''], 'bool': ['true', 'false', 'yes', ''],
+                'args': ['--x "a b"', '-v', ''], 'keyval': ['A=1 B=2', 'A=3', 'C=', '', 'A=1 A=2', 'B=x A=9 B=y', 'C=1 C= C=3', 'A=q1 A=q2 A=q1'], 'bool': ['true', 'false', 'yes', ''],
                 'strempty': ['journald', 'json-file', '']}[kind]
         hist = [rnd.choice(pool) for _ in range(rnd.randint(1, 5))]
         key = {'str': 'Timezone', 'all': 'DNS', 'strv': 'AddCapability', 'args': 'PodmanArgs', 'keyval': 'Environment', 'bool': 'ReadOnly',
